@@ -33,7 +33,8 @@ open CoapVerif CoapVerif.Model.Retransmit CoapVerif.Lemmas.Retransmit CoapVerif.
 
 theorem shape_agrees :
     expiredWhenGE = true ∧ deadlineStrict = true ∧ retransmitAddend = 1 ∧ expiryBeforeRetransmit = true ∧
-    recvRemovesByMID = true ∧ storesClone = true ∧ deferredRemovalByMID = true ∧ responseWakesWriter = true := by decide
+    recvRemovesByMID = true ∧ storesClone = true ∧ deferredRemovalByMID = true ∧ responseWakesWriter = true ∧
+    dropsInPassOfLastCopy = false := by decide
 
 /-! ## bounded, spaced, identical copies -/
 
@@ -220,6 +221,26 @@ theorem response_is_stop (P : Params) (evs : List Ev) (id tag : Nat) (c : Call)
   have := (deliver_pending (inv_run P evs) (tag := tag) hp hf hb).2
   simpa [run, runFrom, List.foldl_append, step] using this
 
+/-- **The last copy has a window too.**  A housekeeping pass that puts a copy of a request on the wire — any copy,
+    the MAX_RETRANSMIT-th included — leaves the request pending: the exchange is not over when the last copy is
+    sent (RFC 7252 §4.2: the sender still waits for the acknowledgement of its last retransmission).  Hence
+    `ack_in_time_succeeds` and `response_in_time_succeeds` apply right after that pass: an acknowledgement,
+    piggybacked response or separate response arriving before the next housekeeping pass completes the call.
+    (Needs `dropsInPassOfLastCopy = false`, regenerated from `checkMidHandlerContainer`.) -/
+theorem last_copy_still_pending (P : Params) (evs : List Ev) (ahead id : Nat)
+    (hc : txCount (run P evs).log id < txCount (run P (evs ++ [.tick ahead])).log id) :
+    isPending (run P (evs ++ [.tick ahead])).pend id = true := by
+  have h := tick_copy_still_pending (inv_run P evs) ahead id
+    (by simpa [run, runFrom, List.foldl_append, step] using hc)
+  simpa [run, runFrom, List.foldl_append, step] using h
+
+/-- … spelled out for the piggybacked answer to the copy just sent. -/
+theorem answer_to_last_copy_succeeds (P : Params) (evs : List Ev) (ahead id tag : Nat)
+    (hc : txCount (run P evs).log id < txCount (run P (evs ++ [.tick ahead])).log id) :
+    ∃ tag', Entry.ret id (.ok tag') (run P (evs ++ [.tick ahead])).now ∈
+      (run P ((evs ++ [.tick ahead]) ++ [.recvMid id (.pig tag)])).log :=
+  ack_in_time_succeeds P (evs ++ [.tick ahead]) id tag (last_copy_still_pending P evs ahead id hc)
+
 /-- Empty acknowledgement first, separate response later: once the writer has been woken (stop entry) and the
     call has not returned (it is not marked done: not cancelled, no deadline, no earlier response), a response
     with its token makes it return successfully with that response. -/
@@ -316,6 +337,11 @@ example : (run P0 [.send 0 7 none, .send 1 8 none, .mut 0 9, .advance 11, .tick 
 example : (run P0 [.send 0 7 none, .send 1 8 none, .mut 1 9, .mut 0 6, .recvMid 0 .ack, .advance 11, .tick 0]).log.reverse =
     [.tx 0 0 0 7, .stop 0 0, .tx 1 0 0 9, .tx 1 1 11 8] := by decide
 
+/-- all copies but the last are lost; the piggybacked answer to the LAST copy (MAX_RETRANSMIT = 2, sent at 21) arrives
+    before the next housekeeping pass: the call returns it -/
+example : (run P0 [.send 0 7 none, .advance 11, .tick 0, .advance 10, .tick 0, .advance 5, .recvMid 0 (.pig 3)]).log.reverse =
+    [.tx 0 0 0 7, .tx 0 1 11 7, .tx 0 2 21 7, .stop 0 26, .got 0 3, .ret 0 (.ok 3) 26] := by decide
+
 /-- reset: the writer is woken, nothing more is sent, the call does not succeed until a real response arrives -/
 example : (run P0 [.send 0 7 none, .recvMid 0 .rst, .advance 50, .tick 0, .resp 0 3]).log.reverse =
     [.tx 0 0 0 7, .stop 0 0, .got 0 3, .ret 0 (.ok 3) 50] := by decide
@@ -347,6 +373,8 @@ open CoapVerif.Props.C06
 #print axioms ack_in_time_succeeds
 #print axioms response_in_time_succeeds
 #print axioms response_is_stop
+#print axioms last_copy_still_pending
+#print axioms answer_to_last_copy_succeeds
 #print axioms ack_then_response_succeeds
 #print axioms ack_wakes_writer
 #print axioms exhaustion_or_reset_no_success
